@@ -114,11 +114,11 @@ def swtpm_render(messages, rng):
     return bytes(out), ends
 
 
-def pcap_render(messages, rng):
+def pcap_render(messages, rng, link=None):
     """Returns (pcapng bytes, carried bytes)."""
     import dpkt
 
-    link = rng.choice(("ipv4", "raw", "eth"))
+    link = link or rng.choice(("ipv4", "raw", "eth"))
     linktype = {"ipv4": 228, "raw": 101, "eth": 1}[link]
     f = io.BytesIO()
     w = dpkt.pcapng.Writer(f, linktype=linktype)
